@@ -74,6 +74,17 @@ Candidates(e) ==
                 ELSE IF e.res = "err" THEN (IF d.m # "ok" THEN {accepted} ELSE {})
                 ELSE IF e.res = "err_io" THEN {accepted} \cup {Append(accepted, it) : it \in item}     \* the sink failed during this call
                 ELSE {}
+      [] e.op = "serialize_all" ->
+            \* Writer::serialize_all: the values one after the other; on an error the ones before it stay accepted
+            LET n     == Len(e.pres_list)
+                ds    == [i \in 1..n |-> Den(G, 1, e.pres_list[i], FALSE)]
+                enc(i) == Enc(G, 1, CHOOSE v \in ds[i].vs : TRUE)
+                clear(i) == ds[i].m # "err" /\ ~ds[i].any /\ Cardinality(ds[i].vs) = 1
+                pre(j) == accepted \o [i \in 1..j |-> enc(i)]
+            IN  IF e.res = "ok" THEN (IF \A i \in 1..n : clear(i) THEN {pre(n)} ELSE {})
+                ELSE IF e.res = "err" THEN {pre(j) : j \in {k \in 0..(n - 1) : (\A i \in 1..k : clear(i)) /\ ds[k + 1].m # "ok"}}
+                ELSE IF e.res = "err_io" THEN {pre(j) : j \in {k \in 0..n : \A i \in 1..k : clear(i)}}
+                ELSE {}
       [] e.op = "push" ->
             LET it == ItemsFrom(G, e.bytes, 1, e.n) IN
             IF ~it.ok THEN {}
